@@ -52,6 +52,8 @@ theorem tryExtract_wf (s : Schema) (st : NState) (v : Value) (t : GType)
   unfold tryExtract
   split
   · exact ⟨hv, h⟩
+  split
+  · exact ⟨hv, h⟩
   · split
     · exact ⟨hv, h⟩
     · split
@@ -135,14 +137,15 @@ include hsch
 
 mutual
 theorem normSel_wf : ∀ (x : Selection) (P : String) (st : NState), EntriesWF st → WFSelection x →
-    WFSelection (normSel s P x st).1 ∧ EntriesWF (normSel s P x st).2
+    WFSelection (normSel s keep P x st).1 ∧ EntriesWF (normSel s keep P x st).2
   | .field al nm args dirs sel loc, P, st, h, hw => by
     simp only [WFSelection] at hw
     cases hfd : fieldDefN s P nm.value with
     | none => simp only [normSel, hfd]; exact ⟨by simpa only [WFSelection] using hw, h⟩
     | some fd =>
-      have hd : ∀ d ∈ fd.args, Reader.WFType (typeRefOf d.type) := fun d hdm => ((hsch.1 P nm.value fd hfd).2 d hdm).2
-      obtain ⟨ha, hst⟩ := normArgs_wf s fd.args hd args st h hw.2.2.1
+      have hd : ∀ d ∈ argDefsFor keep (respKey al nm) fd, Reader.WFType (typeRefOf d.type) :=
+        fun d hdm => ((hsch.1 P nm.value fd hfd).2 d (mem_argDefsFor hdm)).2
+      obtain ⟨ha, hst⟩ := normArgs_wf s (argDefsFor keep (respKey al nm) fd) hd args st h hw.2.2.1
       by_cases ho : s.isObject fd.type.namedName = true
       · simp only [normSel, hfd, ho, if_true]
         obtain ⟨hs, hst'⟩ := normOpt_wf sel fd.type.namedName _ hst hw.2.2.2.2
@@ -156,7 +159,7 @@ theorem normSel_wf : ∀ (x : Selection) (P : String) (st : NState), EntriesWF s
     exact ⟨by simp only [WFSelection]; exact ⟨hw.1, hw.2.1, hs⟩, hst⟩
   | .spread n d l, P, st, h, hw => by simp only [normSel]; exact ⟨hw, h⟩
 theorem normOpt_wf : ∀ (x : Option SelectionSet) (P : String) (st : NState), EntriesWF st → WFOptSelSet x →
-    WFOptSelSet (normOpt s P x st).1 ∧ EntriesWF (normOpt s P x st).2
+    WFOptSelSet (normOpt s keep P x st).1 ∧ EntriesWF (normOpt s keep P x st).2
   | none, P, st, h, _ => by simp only [normOpt]; exact ⟨trivial, h⟩
   | some ss, P, st, h, hw => by
     simp only [WFOptSelSet] at hw
@@ -164,7 +167,7 @@ theorem normOpt_wf : ∀ (x : Option SelectionSet) (P : String) (st : NState), E
     obtain ⟨hs, hst⟩ := normSet_wf ss P st h hw
     exact ⟨by simpa only [WFOptSelSet] using hs, hst⟩
 theorem normSet_wf : ∀ (x : SelectionSet) (P : String) (st : NState), EntriesWF st → WFSelSet x →
-    WFSelSet (normSet s P x st).1 ∧ EntriesWF (normSet s P x st).2
+    WFSelSet (normSet s keep P x st).1 ∧ EntriesWF (normSet s keep P x st).2
   | .mk sels loc, P, st, h, hw => by
     simp only [WFSelSet] at hw
     simp only [normSet]
@@ -176,7 +179,7 @@ theorem normSet_wf : ∀ (x : SelectionSet) (P : String) (st : NState), EntriesW
     | nil => exact absurd rfl hw.1
     | cons x xs => simp only [normList]; exact List.cons_ne_nil _ _
 theorem normList_wf : ∀ (xs : List Selection) (P : String) (st : NState), EntriesWF st → WFSelections xs →
-    WFSelections (normList s P xs st).1 ∧ EntriesWF (normList s P xs st).2
+    WFSelections (normList s keep P xs st).1 ∧ EntriesWF (normList s keep P xs st).2
   | [], P, st, h, _ => by simp only [normList]; exact ⟨trivial, h⟩
   | x :: xs, P, st, h, hw => by
     simp only [WFSelections] at hw
@@ -204,8 +207,8 @@ theorem wfVarDefs_entries : ∀ (es : List Entry), (∀ e ∈ es, isNameC e.name
     obtain ⟨h1, h2⟩ := h e (List.mem_cons_self ..)
     exact ⟨h1, ⟨_, rfl, h2⟩, trivial⟩
 
-theorem normalizeOperation_wf (root : String) (docNames : List String) (d : Definition) (h : WFDefinition d) :
-    WFDefinition (normalizeOperation s root docNames d).1 := by
+theorem normalizeOperation_wf (keep : List String) (root : String) (docNames : List String) (d : Definition) (h : WFDefinition d) :
+    WFDefinition (normalizeOperation s keep root docNames d).1 := by
   cases d with
   | operation op name vars dirs sel loc =>
     simp only [WFDefinition] at h
@@ -260,7 +263,7 @@ theorem normalizeDocument_wf (doc docN : Document) (opName : String) (synth : Li
           · cases h; exact hwf
           · cases h
             have hmem : opDef ∈ doc.defs := List.mem_of_getElem? hget
-            have hd := normalizeOperation_wf s hsch root (docVarNames doc) opDef (wfDefinitions_mem doc.defs hwf.2 opDef hmem)
+            have hd := normalizeOperation_wf s hsch (fragKeys doc) root (docVarNames doc) opDef (wfDefinitions_mem doc.defs hwf.2 opDef hmem)
             exact ⟨replaceAt_ne_nil _ _ _ hwf.1, wfDefinitions_replaceAt _ _ _ hwf.2 hd⟩
 
 end Walk
